@@ -253,6 +253,9 @@ func smtPrelude(needModels bool) string {
 }
 
 // Prove checks hyps ⊨ goal. getvals are terms whose values are requested when the answer is sat.
+// mirrorFacts: Int-sorted restatements of bit-vector comparisons (IntMirror) that were added as hypotheses.
+var mirrorFacts sync.Map
+
 func Prove(name string, hyps []*Term, goal *Term, getvals []*Term, timeoutS int, needTwo bool) *ProveResult {
 	if goal.IsTrue() {
 		return &ProveResult{Status: "unsat", Solver: "simplifier"}
@@ -306,6 +309,22 @@ func Prove(name string, hyps []*Term, goal *Term, getvals []*Term, timeoutS int,
 	}
 	res := race(file, timeoutS, needTwo)
 	res.File = file
+	if res.Status != "unsat" && res.Status != "sat" {
+		// undecided: the integer "mirror" facts added for bit-vector comparisons help most goals and hurt a few; an
+		// unsat answer from fewer hypotheses is still a proof
+		var fewer []*Term
+		for _, h := range hyps {
+			if _, isMirror := mirrorFacts.Load(h); !isMirror {
+				fewer = append(fewer, h)
+			}
+		}
+		if len(fewer) < len(hyps) {
+			if r2 := Prove(name+".nomirror", fewer, goal, getvals, timeoutS, needTwo); r2.Status == "unsat" {
+				r2.Ms += res.Ms
+				return r2
+			}
+		}
+	}
 	if res.Status == "unsat" {
 		proveCache.Store(sum, res)
 		if os.Getenv("GOVC_KEEPALL") == "" {
